@@ -11,6 +11,7 @@ part validates the decoder / codec oracles and is testing).
 """
 from __future__ import annotations
 
+import copy
 import itertools
 import json
 import os
@@ -820,7 +821,7 @@ def check_file(cfg, rec):
         a3, p3 = a.reshape(S, Hp, Wp), pix
     for name, arr in (("tifffile", a3), ("rasterio", b)):
         if arr.shape != (p3.shape[0], Hp, Wp) or arr.dtype.newbyteorder("=") != stored_dtype(pix.dtype):
-            msgs.append(f"{name}: decoded {arr.shape} {arr.dtype}, want {(p3.shape[0], Hp, Wp)} {pix.dtype}")
+            msgs.append(f"{name}: decoded {arr.shape} {arr.dtype}, want {(p3.shape[0], Hp, Wp)} {stored_dtype(pix.dtype)}")
         elif not np.array_equal(arr[:, :H, :W], p3):
             bad = np.argwhere(arr[:, :H, :W] != p3)[0].tolist()
             msgs.append(f"{name}: pixel {bad} decodes to {arr[tuple(bad)]!r}, input {p3[tuple(bad)]!r}")
@@ -930,7 +931,7 @@ def p_noloss(cfg):
     from vlib import cogio
     import copy
 
-    cfg = dict(cfg)
+    cfg = copy.deepcopy(dict(cfg))           # the dict handed to the writer must not leak into the recorded replay
     cfg["chunks"] = tuple(cfg["chunks"])
     assert str(cfg["compression"]).lower() in LOSSLESS
     work = tempfile.mkdtemp(prefix="verif-c05-")
